@@ -135,5 +135,6 @@ pub fn committee_elig(seed: u64, weights: &[u64], fork: u64, first_block: u64, s
 }
 
 pub fn committee(seed: u64, weights: &[u64]) -> Committee {
-    committee_with(seed, weights, 0, 0, LeaderSelection { frequency: 1, mode: LeaderSelectionMode::RoundRobin })
+    let fb = std::env::var("VERIF_FIRST_BLOCK").ok().and_then(|s| s.parse().ok()).unwrap_or(0);
+    committee_with(seed, weights, 0, fb, LeaderSelection { frequency: 1, mode: LeaderSelectionMode::RoundRobin })
 }
